@@ -1115,7 +1115,8 @@ def run_exhaustive(ctx):
                 ctx.fail_now(*failure)
     ctx.extra["exhaustive"] = stride == 1
     ctx.extra["exhaustive_pairs"] = count
-    ctx.extra["exhaustive_terms"] = len(terms)
+    if ctx.shard == 0:          # numeric extras are summed over shards
+        ctx.extra["exhaustive_terms"] = len(terms)
 
 
 # --------------------------------------------------------------------------
